@@ -261,7 +261,7 @@ Section ByAgree.
                  | apply bi_sum_closed | apply bi_prod_closed | apply bi_median_closed
                  | apply bi_percentile_closed | apply bi_len_closed | apply bi_dot_closed
                  | apply bi_split_closed | apply bi_replace_closed | apply bi_includes_closed
-                 | apply bi_keys_closed | apply bi_convert_closed | apply bi_round_closed
+                 | apply bi_keys_closed | apply bi_convert_closed | apply bi_round_closed | apply bi_random_closed
                  | apply bi_to_number_closed | apply bi_to_string_closed | apply bi_join_full_closed
                  | intros v;
                    first [ apply bi_head_closed | apply bi_tail_closed | apply bi_slice_closed
